@@ -169,6 +169,60 @@ pub fn record_c06(a: &Args) -> usize {
             out.emit(json!({"e": "op", "op": logged, "res": res, "obs": page_obs(&p)}));
         }
     }
+    // pages built from raw bytes whose unused bits (rows height .. next multiple of 8) carry data: whatever they hold, every
+    // real pixel obeys the operations (counts, masks or shortcuts taken over whole bytes must not see them)
+    let stray_sizes: Vec<(u32, u32)> = sizes.iter().copied().filter(|(w, h)| *w > 0 && *h % 8 != 0 && (*w as u64) * (*h as u64) <= 2000).collect();
+    for (k, (w, h)) in stray_sizes.iter().enumerate() {
+        out.balance();
+        let bpc = ((*h + 7) / 8) as usize;
+        let blank = Page::new(PageId(3), *w, *h).as_bytes().to_vec();
+        for variant in 0..4usize {
+            let mut bytes = blank.clone();
+            let d = 1 + (k + variant) % 3;
+            // pixel bits
+            for x in 0..*w as usize {
+                for y in 0..*h as usize {
+                    let lit = match variant { 0 | 2 => true, _ => false };
+                    if lit {
+                        bytes[4 + x * bpc + y / 8] |= 1 << (y % 8);
+                    }
+                }
+            }
+            // d dark (or lit) pixels against the grain, and stray unused bits: exactly d of them (variants 0, 1) or all of them (2, 3)
+            let mut strays: Vec<(usize, usize)> = vec![];
+            for x in 0..*w as usize {
+                for y in *h as usize..bpc * 8 {
+                    strays.push((x, y));
+                }
+            }
+            for i in 0..d.min((*w * *h) as usize) {
+                let (x, y) = (rng.gen_range(0..*w as usize), rng.gen_range(0..*h as usize));
+                let _ = i;
+                bytes[4 + x * bpc + y / 8] ^= 1 << (y % 8);
+            }
+            let lit_now = (0..*w as usize).flat_map(|x| (0..*h as usize).map(move |y| (x, y))).filter(|(x, y)| bytes[4 + x * bpc + y / 8] & (1 << (y % 8)) != 0).count();
+            let want_strays = match variant { 0 => (*w * *h) as usize - lit_now, 1 => lit_now.max(1), _ => strays.len() };
+            for j in 0..want_strays.min(strays.len()) {
+                let (x, y) = strays[(j * 7 + k) % strays.len()];
+                bytes[4 + x * bpc + y / 8] |= 1 << (y % 8);
+            }
+            let mut p = match Page::from_bytes(*w, *h, bytes.as_slice()) {
+                Ok(p) => p,
+                Err(_) => continue,
+            };
+            out.emit(json!({"e": "page", "borrowed": true, "obs": page_obs(&p)}));
+            let first = match variant { 0 | 2 => json!({"k": "setall", "x": 0, "y": 0, "v": true}), 1 => json!({"k": "setall", "x": 0, "y": 0, "v": false}),
+                                        _ => json!({"k": "set", "x": rng.gen_range(0..*w), "y": rng.gen_range(0..*h), "v": true}) };
+            let mut ops = vec![first];
+            for _ in 0..6 {
+                ops.push(json!({"k": if rng.gen_bool(0.8) { "set" } else { "setall" }, "x": rng.gen_range(0..*w), "y": rng.gen_range(0..*h), "v": rng.gen_bool(0.5)}));
+            }
+            for op in ops {
+                let res = apply_op(&mut p, &op);
+                out.emit(json!({"e": "op", "op": op, "res": res, "obs": page_obs(&p)}));
+            }
+        }
+    }
     out.finish()
 }
 
@@ -423,6 +477,49 @@ fn record_c07_wide(out: &mut TraceOut, rng: &mut StdRng, w: u32, h: u32, alloc: 
     }
 }
 
+/// Pages whose height is close to the largest a u32 can express (a single column of 2^32 - 1 rows is 512 MiB): fresh page,
+/// from_bytes at and around the padded length, single pixels in the first and the last rows.
+fn record_c07_tall(out: &mut TraceOut, w: u32, h: u32) {
+    let (hq, hr) = (h / 8, h % 8);
+    let id = 0x5Au8;
+    let fresh = match catch(|| Page::new(PageId(id), w, h)) {
+        Ok(p) => p,
+        Err(_) => {
+            out.emit(json!({"e": "tall_new", "w": w, "hq": hq, "hr": hr, "id": id, "len_c": 0, "len_r": 0, "header": [], "first_nonzero": [-1, -1, 0], "panic": true}));
+            return;
+        }
+    };
+    let total = fresh.as_bytes().len();
+    let first = nonzero(&fresh.as_bytes()[4.min(total)..], 1).first().map(|(i, b)| json!([(i + 4) >> 16, (i + 4) & 0xFFFF, b])).unwrap_or(json!([-1, -1, 0]));
+    out.emit(json!({"e": "tall_new", "w": w, "hq": hq, "hr": hr, "id": id, "len_c": total / 16, "len_r": total % 16, "header": j::bytes(&fresh.as_bytes()[..4.min(total)]),
+                    "first_nonzero": first, "panic": false}));
+    drop(fresh);
+    for len in [total, total + 16, total.saturating_sub(16), 16] {
+        let r = catch(|| Page::from_bytes(w, h, vec![0u8; len]).map(|_| ()));
+        let (res, e, a_) = match r {
+            Ok(Ok(())) => ("ok", 0usize, 0usize),
+            Ok(Err(flipdot_core::PageError::WrongPageLength { expected, actual, .. })) => ("wronglength", expected, actual),
+            Ok(Err(_)) => ("othererr", 0, 0),
+            Err(_) => ("panic", 0, 0),
+        };
+        out.emit(json!({"e": "tall_frombytes", "w": w, "hq": hq, "hr": hr, "len_c": len / 16, "len_r": len % 16, "res": res, "exp_c": e / 16, "exp_r": e % 16, "act_c": a_ / 16, "act_r": a_ % 16}));
+    }
+    let Ok(Ok(mut p)) = catch(|| Page::from_bytes(w, h, vec![0u8; total])) else { return };
+    for (x, y) in [(0u32, 0u32), (0, h - 1), (w.min(3) - 1, h - 1), (w.min(3) - 1, 0), (0, h - 8), (w.min(2) - 1, h / 2)] {
+        if catch(std::panic::AssertUnwindSafe(|| p.set_pixel(x, y, true))).is_err() {
+            out.emit(json!({"e": "tall_set1", "w": w, "hq": hq, "hr": hr, "x": x, "yq": y / 8, "yr": y % 8, "changed": [], "panic": true, "reads": false}));
+            continue;
+        }
+        let changed: Vec<Value> = nonzero(p.as_bytes(), 8).into_iter().map(|(i, b)| json!([(i as u64) >> 16, (i as u64) & 0xFFFF, b])).collect();
+        let reads = catch(std::panic::AssertUnwindSafe(|| p.get_pixel(x, y))).unwrap_or(false);
+        out.emit(json!({"e": "tall_set1", "w": w, "hq": hq, "hr": hr, "x": x, "yq": y / 8, "yr": y % 8, "changed": changed, "panic": false, "reads": reads}));
+        let _ = catch(std::panic::AssertUnwindSafe(|| p.set_pixel(x, y, false)));
+        if !nonzero(p.as_bytes(), 1).is_empty() {
+            return;
+        }
+    }
+}
+
 pub fn record_c07(a: &Args) -> usize {
     let thorough = a.tier == "thorough";
     let mut rng = StdRng::seed_from_u64(a.seed ^ 0xC07);
@@ -439,6 +536,12 @@ pub fn record_c07(a: &Args) -> usize {
     for (w, h, alloc) in wide {
         out.balance();
         record_c07_wide(&mut out, &mut rng, w, h, alloc, if thorough { 12 } else { 4 });
+    }
+    // the tallest pages a u32 height allows (every value of h mod 8 in thorough)
+    let tall: Vec<(u32, u32)> = if thorough { (0..8).map(|k| (1 + k % 3, u32::MAX - k)).chain([(2, 1 << 31), (1, (1 << 31) + 1)]).collect() } else { vec![(1, u32::MAX), (2, u32::MAX - 6), (1, u32::MAX - 7)] };
+    for (w, h) in tall {
+        out.balance();
+        record_c07_tall(&mut out, w, h);
     }
     let mut sizes: Vec<(u32, u32)> = ALL_TYPES.iter().map(|t| t.dimensions()).collect();
     sizes.extend_from_slice(&[(0, 0), (0, 1), (1, 0), (12, 8), (13, 8), (6, 16), (4, 20), (28, 1), (28, 8), (5, 17), (5, 24), (5, 25), (3, 33), (1000, 16), (255, 255)]);
